@@ -188,7 +188,8 @@ class ESSearch(ABC):
             us = us_candidates[z_idx[0:N]]  # zlist in Matlab is not used
 
             if i < self.n_search_iter - 1:
-                frac = n_new / ntest
+                # an emptied generation (ntest == 0) counts as no success
+                frac = n_new / ntest if ntest > 0 else 0.0
                 # Update scale parameter
                 if i > 0:
                     self.scale = self.scale * np.exp(
